@@ -8,6 +8,7 @@ import (
 	"hash"
 	"html/template"
 	"net/url"
+	"sync"
 	"time"
 
 	"github.com/hashicorp/go-retryablehttp"
@@ -17,6 +18,10 @@ import (
 
 	"github.com/ory/fosite/i18n"
 )
+
+// defaultJWKSFetcherStrategyMutex guards the lazy creation of the default JWKS fetcher strategy in
+// (*Config).GetJWKSFetcherStrategy.
+var defaultJWKSFetcherStrategyMutex sync.Mutex
 
 const (
 	defaultPARPrefix                 = "urn:ietf:params:oauth:request_uri:"
@@ -283,8 +288,10 @@ func (c *Config) GetHTTPClient(ctx context.Context) *retryablehttp.Client {
 }
 
 func (c *Config) GetSecretsHasher(ctx context.Context) Hasher {
+	// The default is returned without being stored: writing to the shared Config from a getter races with
+	// every concurrent request that reads it.
 	if c.ClientSecretsHasher == nil {
-		c.ClientSecretsHasher = &BCrypt{Config: c}
+		return &BCrypt{Config: c}
 	}
 	return c.ClientSecretsHasher
 }
@@ -368,7 +375,7 @@ func (c *Config) GetAllowedPrompts(_ context.Context) []string {
 // GetScopeStrategy returns the scope strategy to be used. Defaults to glob scope strategy.
 func (c *Config) GetScopeStrategy(_ context.Context) ScopeStrategy {
 	if c.ScopeStrategy == nil {
-		c.ScopeStrategy = WildcardScopeStrategy
+		return WildcardScopeStrategy
 	}
 	return c.ScopeStrategy
 }
@@ -376,7 +383,7 @@ func (c *Config) GetScopeStrategy(_ context.Context) ScopeStrategy {
 // GetAudienceStrategy returns the scope strategy to be used. Defaults to glob scope strategy.
 func (c *Config) GetAudienceStrategy(_ context.Context) AudienceMatchingStrategy {
 	if c.AudienceMatchingStrategy == nil {
-		c.AudienceMatchingStrategy = DefaultAudienceMatchingStrategy
+		return DefaultAudienceMatchingStrategy
 	}
 	return c.AudienceMatchingStrategy
 }
@@ -441,6 +448,9 @@ func (c *Config) GetBCryptCost(_ context.Context) int {
 
 // GetJWKSFetcherStrategy returns the JWKSFetcherStrategy.
 func (c *Config) GetJWKSFetcherStrategy(_ context.Context) JWKSFetcherStrategy {
+	// The default strategy owns a cache and must be created once; the lazy initialisation is serialised.
+	defaultJWKSFetcherStrategyMutex.Lock()
+	defer defaultJWKSFetcherStrategyMutex.Unlock()
 	if c.JWKSFetcherStrategy == nil {
 		c.JWKSFetcherStrategy = NewDefaultJWKSFetcherStrategy()
 	}
